@@ -147,23 +147,26 @@ def gen_tasks(r, tier):
         parts = sl.split_parts(r, len(x.data), k)
         avail = [r.random() > 0.05 for _ in parts]
         rs = c10.gen_ruleset(r, pool)
-        tasks.append(("blk", rs, [x.with_parts(parts, avail), sl.Input(x.data, path=x.path)], r.choice(c10.FLAGS),
-                      "masks=0:%d:1" % (len(parts) + 1)))
+        other = r.choice([y for y in pool if y.data != x.data] or [sl.Input(b"he hello world")])
+        tasks.append(("blk", rs, [x.with_parts(parts, avail), sl.Input(x.data, path=x.path), sl.Input(other.data, path=other.path)],
+                      r.choice(c10.FLAGS), "masks=0:%d:1:2" % (len(parts) + 1)))
     for _ in range(npl):           # place-dependent operators with the evidence in non-first blocks
         rs, ins = place_task(r)
-        tasks.append(("place", rs, ins, r.choice(c10.FLAGS), "masks=0:%d:1" % min(len(ins[0].parts) + 1, 5)))
+        ins.append(sl.Input(ins[1].data[::-1] + b" MARKER-1234 hello"))
+        tasks.append(("place", rs, ins, r.choice(c10.FLAGS), "masks=0:%d:1:2" % min(len(ins[0].parts) + 1, 5)))
     for _ in range(nev):           # block loop + rule evaluation, <= 3 blocks
         data = r.choice([c10.rand_text(r, False) + b"he", sl.synth_pe(0x1010, b"hello")[:r.choice([400, 600])], sl.synth_elf32(0x8048060, b"hehe")])
         k = r.randint(1, 3)
         parts = sl.split_parts(r, len(data), k)
         rs = small_rules(r, data)
-        tasks.append(("eval", rs, [sl.Input(data, parts)], 0, "masks=0:%d" % r.choice([10, 11, 12])))
+        probe = sl.Input(c10.rand_text(r, False) + b"hehe " + data[:40][::-1])
+        tasks.append(("eval", rs, [sl.Input(data, parts), sl.Input(data), probe], 0, "masks=0:%d:1:2" % r.choice([10, 11, 12])))
     return tasks
 
 
 def task_line(cid, t):
     kind, rs, ins, flags, extra = t
-    if extra.startswith("masks=") and extra.count(":") == 2:
+    if extra.startswith("masks=") and extra.count(":") >= 2:
         # sw=1: the partition cuts nothing, so it must agree with yr_rules_scan_mem of the same bytes (decided here, not by the model)
         extra += " sw=%d" % (1 if ins[0].same_as_whole(rs) else 0)
     return sl.case_line(cid, rs, ins, flags, 0, 1000000, []).replace(" ops= ", " ") + " " + extra
@@ -222,7 +225,7 @@ def run_body(chk, lres, b, tier, replay, scratch):
     mm = {x.split(" ", 1)[0]: x.split(" ", 1)[1] for x in model if " " in x}
     known = core.known_findings("C13")
     f27 = [k for k in known if k.get("signature", {}).get("not_ready_during") == "rule-evaluation"]
-    stats = {"callback_scripts": {}, "whole_buffer_comparisons": 0, "sparse_base_tasks": 0, "entry_point_tasks": 0, "entry_point_scans": 0, "mask_tasks": 0, "masks": 0, "masks_with_not_ready_in_evaluation": 0,
+    stats = {"probe_scans_after_interrupted_runs": 0, "file_names": {}, "callback_scripts": {}, "whole_buffer_comparisons": 0, "sparse_base_tasks": 0, "entry_point_tasks": 0, "entry_point_scans": 0, "mask_tasks": 0, "masks": 0, "masks_with_not_ready_in_evaluation": 0,
              "interrupted_api_calls": 0, "deviating_masks_known_F27": 0, "blocks_histogram": {}}
     nv = 0
     f17_examples = []
@@ -239,6 +242,18 @@ def run_body(chk, lres, b, tier, replay, scratch):
             msec = {x.split("=", 1)[0]: x.split("=", 1)[1] for x in m[2:].split("^")} if m is not None and m.startswith("E ") else None
             for sec in a[2:].split("^"):
                 script, body = sec.split("=", 1)
+                if script == "F":
+                    # the same file reached by other names: each must give what the plain scan gives
+                    plain = a[2:].split("^")[0].split("=", 1)[1].split("|")[0].rsplit(";R=", 1)[0]
+                    for item in body.split("|"):
+                        name, tr = item.split(":", 1)
+                        stats["file_names"][name] = stats["file_names"].get(name, 0) + 1
+                        want = "rc=COULD_NOT_OPEN_FILE,rc=COULD_NOT_OPEN_FILE" if name == "directory" else plain + "," + plain
+                        if tr != want and nv < 10:
+                            chk.violation("epname_%s_%s.json" % (cid, name), dict(base, kind="path-based entry points disagree with scan_mem when the file is named "
+                                          "through: " + name, implementation=tr, expected_rules_scan_file_then_scanner_scan_file=want))
+                            nv += 1; found = True
+                    continue
                 if script == "N":
                     if body != "COULD_NOT_OPEN_FILE,COULD_NOT_OPEN_FILE,COULD_NOT_OPEN_FILE,COULD_NOT_OPEN_FILE;msgs=0;R=ok" and nv < 10:
                         chk.violation("epn_%s.json" % cid, dict(base, kind="entry points on a missing file / closed descriptor: wrong result, callback or descriptor leak",
@@ -267,7 +282,19 @@ def run_body(chk, lres, b, tier, replay, scratch):
             continue
         parts = a[2:].split("!")
         ncls = int(parts[0]); classes = parts[1:1 + ncls]; cmap, calls, flags = parts[1 + ncls:4 + ncls]
-        wtrace = parts[4 + ncls][2:] if len(parts) > 4 + ncls and parts[4 + ncls].startswith("W=") else None
+        wtrace = next((x[2:] for x in parts[4 + ncls:] if x.startswith("W=")), None)
+        probes = next((x[2:] for x in parts[4 + ncls:] if x.startswith("P=")), None)
+        # the property itself (0): whatever happened to the interrupted scan (also finding F27), the NEXT scan on the same scanner
+        # with the same iterator object, on other data, reports exactly what yr_rules_scan_mem reports for that data
+        if probes is not None:
+            stats["probe_scans_after_interrupted_runs"] += len(probes)
+            if "0" in probes and nv < 10:
+                k = probes.index("0")
+                chk.violation("carry_%s.json" % cid, dict(base, kind="state of an interrupted scan is carried into the next scan on the same scanner and "
+                              "iterator object (different data): it does not report what yr_rules_scan_mem reports", mask=k,
+                              not_ready_reached_rule_evaluation=flags[k] == "1", interrupted_run=classes[int(cmap[k], 36)],
+                              masks_affected=probes.count("0")))
+                nv += 1; found = True
         stats["mask_tasks"] += 1; stats["masks"] += len(cmap)
         stats["masks_with_not_ready_in_evaluation"] += flags.count("1")
         stats["interrupted_api_calls"] += sum(int(c, 36) for c in calls)
